@@ -111,3 +111,26 @@ Theorem C03_same_up_to_idle_iterations : forall (r : bool) (is1 is2 : list input
   FsmProofs.run (init r) is1 = FsmProofs.run (init r) is2 /\ trace (init r) is1 = trace (init r) is2.
 Proof. exact same_up_to_idle. Qed.
 Print Assumptions C03_same_up_to_idle_iterations.
+
+(* ---- the same on the concrete loop (Model.Provider.iter, the model that is compared with the real loop after every
+   iteration): in a quiet state - no complete frame buffered, nothing waiting at the transport, no request of the local
+   user queued, ARTIM not expired, control state quiescent - an iteration reads nothing, writes nothing, indicates
+   nothing and keeps control state, buffer, slot, queue and timer; with no outgoing fragments left over it is the
+   identity on the whole state, so an idle iteration inserted at a quiet point of ANY script changes nothing at all,
+   whatever follows it. *)
+From PND Require Import Proofs.ProviderProofs Proofs.ProviderIdleProofs.
+
+Theorem C03_idle_iteration_concrete : forall env s,
+  In (ctl s) reach -> quiet s = true ->
+  let s' := iter env s Idle in
+  ctl s' = ctl s /\ wire s' = wire s /\ given s' = given s /\ raw s' = raw s /\ pending s' = pending s
+  /\ userq s' = userq s /\ prim s' = prim s /\ tstart s' = tstart s /\ now s' = now s.
+Proof. exact idle_iteration_concrete. Qed.
+Print Assumptions C03_idle_iteration_concrete.
+
+Theorem C03_idle_insertion_invisible : forall env requestor maxlen (ops1 ops2 : list op),
+  forallb legal_op ops1 = true ->
+  quiet_all (run_script env requestor maxlen ops1) = true ->
+  run_script env requestor maxlen (ops1 ++ Idle :: ops2) = run_script env requestor maxlen (ops1 ++ ops2).
+Proof. exact idle_insertion_invisible. Qed.
+Print Assumptions C03_idle_insertion_invisible.
